@@ -27,7 +27,10 @@ def anchor(ctx, facts, rule, pat, what):
 def mutating_sites(facts):
     """All call sites in non-test local bodies whose callee is a filesystem mutator."""
     out = []
+    skip = facts.fully_inlined()   # helpers that only exist inside the anchored bodies they were inlined into
     for b in facts.non_test_bodies():
+        if b.id in skip:
+            continue
         for c in b.calls:
             names = c.names()
             if any(fsapi.classify(n) == "mutating" for n in names):
@@ -180,6 +183,22 @@ def failure_returns(body):
                         info["kind"] = "result"
                         info["failure"] = r2["ops"][r2["fields"].index("failure")]
                         info["count"] = r2["ops"][r2["fields"].index("num_inserted_references")]
+                if info["kind"] == "other":
+                    # the struct is built elsewhere (an inlined helper, a Poll::Ready payload, a tuple ...): follow the value
+                    from ..common import value_sites
+                    leaves = value_sites(body, rv["ops"][0])
+                    aggs = [x["rv"] for (_b, x) in leaves if isinstance(x, dict) and x["rv"]["k"] == "agg" and x["rv"].get("agg") == "adt"
+                            and x["rv"].get("adt", "").endswith("InsertReferencesResult")]
+                    if leaves and len(aggs) == len(leaves):
+                        fo = [a["ops"][a["fields"].index("failure")] for a in aggs]
+                        fc = {(op_const(o) or {}).get("int") for o in fo}
+                        if len(aggs) == 1 or (len(fc) == 1 and None not in fc):
+                            info["kind"] = "result"
+                            info["failure"] = fo[0]
+                            co = [a["ops"][a["fields"].index("num_inserted_references")] for a in aggs]
+                            info["count"] = co[0] if len(aggs) == 1 else None
+                if info["kind"] != "other":
+                    pass
                 elif d and d[1] == "call":
                     # a local constructor helper such as `InsertReferencesResult::failed()`: accepted when
                     # every return of the helper builds the struct from constants
